@@ -191,7 +191,12 @@ def r3_traversal_agreement(ctx: Ctx) -> None:
     ctx.check(assigned.get("self.resolver.last_used_scope") == "0" and assigned.get("self.resolver.current_scope") == "self.resolver.scopes[0]",
               "resolver_reset:scope-replay", f"resets last_used_scope to 0 and current_scope to the root; found {assigned}")
     # Program.emit: same list, both cursors advance by the emitted length
-    pe = repo.func(PROGRAM, "Program.emit")
+    import copy as _copy
+
+    from .c03 import emit_canonical
+
+    pe = _copy.copy(repo.func(PROGRAM, "Program.emit"))
+    pe.node = emit_canonical(pe.node)
     floops = [st for st in pe.node.body if isinstance(st, ast.For)]
     if len(floops) != 1:
         raise AnalysisError("Program.emit: expected one loop over the node list")
